@@ -75,9 +75,14 @@ async def run_case(case):
     done = anyio.Event()
 
     async def owner_body(ctx):
-        for b in prog:
+        deferred = None
+        for bi, b in enumerate(prog):
             await d.gate("B")
-            if b[0] == "RegCb":
+            if b[0] == "RegCb" and b[1] % 3 == 0 and bi + 1 < len(prog) and prog[bi + 1][0] == "StartSvc":
+                # this callback is registered (by another task) while the next service task is still coming
+                # up: it is registered BEFORE the task has started, so it is torn down after it
+                deferred = b[1]
+            elif b[0] == "RegCb":
                 if b[1] % 2:
                     ctx.add_teardown_callback(lambda i=b[1]: d.obs("TdBegin", i))
                 else:
@@ -112,7 +117,23 @@ async def run_case(case):
 
                     def ta(inner_ta=inner_ta):
                         return inner_ta()
-                if sid % 2 and helper.get("ready"):
+                if deferred is not None:
+                    x, deferred = deferred, None
+                    window = anyio.Event()
+                    inner_task = make_task(d, sid, sv, stop)
+
+                    async def slow_start(*, task_status, inner_task=inner_task, window=window):
+                        await window.wait()
+                        task_status.started()
+                        await inner_task()
+
+                    async def registrar(x=x, window=window):
+                        ctx.add_teardown_callback(lambda i=x: d.obs("TdBegin", i))
+                        window.set()
+                    async with anyio.create_task_group() as ltg:
+                        ltg.start_soon(registrar)
+                        await ctx.start_service_task(slow_start, f"s{sid}", teardown_action=ta)
+                elif sid % 2 and helper.get("ready"):
                     # the call is made on the owning context by a task whose current context is another
                     # one (the outer context): the task belongs to the context whose method was called
                     helper["job"] = (ctx, make_task(d, sid, sv, stop), f"s{sid}", ta)
